@@ -190,3 +190,22 @@ package runtime
 //@   requires sb != nil
 //@   modifies *sb
 //@   assert before sb.WriteString#1: inL(html.UnescapeString(arg0), CSS_NAME_SAFE)
+
+// ---------------------------------------------------------------------------
+// C14 (confinement): the only package-level state that is written after initialisation on the render path is the
+// cache of watched text files; every access to it happens with watchStateMutex held.
+//@ guarded watchModeCache by watchStateMutex
+
+//@ func getWatchedStrings [C14]
+//@   requires !held(watchStateMutex)
+// the cache map is created by its initialiser and never set to nil
+//@   assume entry: watchModeCache != nil
+//@   modifies failedDuring
+//@   ensures !held(watchStateMutex)
+
+// cacheStrings is only called with the mutex held
+//@ func cacheStrings [C14]
+//@   requires held(watchStateMutex)
+//@   assume entry: watchModeCache != nil
+//@   modifies failedDuring
+//@   ensures held(watchStateMutex)
